@@ -1317,11 +1317,12 @@ class SE3(SO3):
     def SO3(cls, R, check=True):
         if isinstance(R, SO3):
             R = R.A
+            check = False  # the value of a pose object is not validated again
         elif base.isrot(R, check=check):
             pass
         else:
             raise ValueError('expecting SO3 or rotation matrix')
-        return cls(base.r2t(R))
+        return cls(base.r2t(R), check=check)
 
 if __name__ == '__main__':   # pragma: no cover
 
